@@ -459,7 +459,12 @@ class Check:
             "outcome": "violated:" + r.violated[1] if r.violated else ("ok" if r.completed else f"error:{r.error}"),
         }
         if r.coverage:
-            rec["actions_never_taken"] = sorted(a for a, (n, _) in r.coverage.items() if n == 0)
+            # TLC prints <Action ...>: distinct:generated ; an action is vacuous when it never fired
+            rec["actions"] = {a: g_ for a, (_, g_) in sorted(r.coverage.items())}
+            rec["actions_never_taken"] = sorted(a for a, (_, g_) in r.coverage.items() if g_ == 0)
+            if rec["actions_never_taken"] and expect_violation is None and not r.violated:
+                self.cov["tlc_runs"].append(rec)
+                raise MachineryError(f"vacuity: actions never taken in {module}/{cfg}: {rec['actions_never_taken']}")
         self.cov["tlc_runs"].append(rec)
         if r.error and not r.violated:
             raise MachineryError(f"TLC failed on {module}/{cfg}: {r.error}\n{r.out[-3000:]}")
@@ -505,8 +510,11 @@ class Check:
                     indent=1, default=str,
                 )
             )
-            print(f"VIOLATION property={self.pid} replay={path}")
-            print(f"  what: {what}")
+            if n_unlisted <= 40:
+                print(f"VIOLATION property={self.pid} replay={path}")
+                print(f"  what: {what[:600]}")
+            elif n_unlisted == 41:
+                print(f"  ... further violations of {self.pid} are counted in the evidence file only")
             rc = 1
         self.cov["distinct_nontrivial"] = max(self.cov["distinct_nontrivial"], len(self._distinct))
         if not noev:
@@ -559,6 +567,12 @@ def main(argv=None):
         mod.run(chk)
         return chk.finish()
     except MachineryError as ex:
+        if chk.violations:
+            # property predicates already failed on implementation data: those verdicts stand;
+            # a later machinery step (e.g. a binding demonstration built on the same, now wrong,
+            # records) cannot be carried out and is reported as a diagnostic
+            chk.diag(f"machinery step not carried out after violations were found: {str(ex)[:300]}")
+            return chk.finish()
         print(f"MACHINERY-ERROR check={a.pid}: {ex}", file=sys.stderr)
         shutil.rmtree(chk.scratch, ignore_errors=True)
         return 2
@@ -570,4 +584,9 @@ def main(argv=None):
 
 
 if __name__ == "__main__":
-    sys.exit(main())
+    # run through the canonical module object, so that the exception classes raised by the check
+    # modules (imported from harness.core) are the ones caught here
+    sys.path.insert(0, str(VERIF))
+    from harness.core import main as _main
+
+    sys.exit(_main())
